@@ -84,6 +84,13 @@ CHECKS = {
          'for 6 versions x 5 kinds is recorded and judged by TLC (Trace_Gate.tla).  GridSeq additionally carries GateInv through arbitrary row-operation histories.',
     ref='DESIGN.md 5/C10', technique='TLA+ spec Gate (+Version.Nearest) enumerated by TLC, every case replayed on the code; TLC-judged decision table of the five deciders',
     note='pre-3.0 = nearest official version < 3.0 (pinned by the repository tests); in-place edits of dicts already handed to the grid are outside the API'),
+
+ 'C08': dict(
+    text='Exhaustive sweeps on the real code judged by TLC: every code point (quick: all below U+3000, every 64th above, boundaries; thorough: all 1,114,112; thorough also URI/Ref-display/XStr positions) in a string '
+         'cell, every string of length <=2 (thorough <=3) over one representative per metacharacter class in nine text-carrying positions, seeded random longer strings and type-prefix look-alikes; batched many rows per grid so a break-out '
+         'changes the grid shape.  The dumped text is run through the strict reader machine (ZincRead.tla / HJson.tla for JSON), which must return exactly Abs(g); and Abs(parse(dump(g))) = Abs(g).',
+    ref='DESIGN.md 5/C08', technique='TLA+ reader machines (ZincRead, HJson) executed by TLC over hszinc output for exhaustive code-point and metacharacter-string sweeps; TLC-judged round-trip equality',
+    note='XStr payload position uses a typed XStr; meta positions under 3.0; JSON part is active when lib/jsoncodec.py provides c08_job (see evidence formats)'),
 }
 NOT_YET = {}
 
